@@ -43,7 +43,7 @@ warnings.filterwarnings("ignore", category=DeprecationWarning)
 warnings.filterwarnings("ignore", category=UserWarning)
 
 ID = "C20"
-LEAN_TARGETS = ["RV.C20.Props", "RV.C20.TextProps", "RV.C20.ValuesProps", "RV.C20.ConnProps", "RV.C20.Audit"]
+LEAN_TARGETS = ["RV.C20.Props", "RV.C20.TextProps", "RV.C20.ValuesProps", "RV.C20.ConnProps", "RV.C20.ResultProps", "RV.C20.Audit"]
 AUDIT = "RV/C20/Audit.lean"
 DRIVER = "drv_c20"
 CASES = {"quick": 600, "thorough": 12000, "search": 4000}
@@ -464,7 +464,101 @@ def model_lines(case):
             lines.append("sent")
             lines.append("senttext")
             lines.append("senthttp")
+            lines.append("sentres")
     return lines
+
+
+# ------------------------------------------------------------------ result layer (lean/RV/C20/Result.lean)
+
+RES_OPS = ("triples", "len", "contains", "contexts", "proj")     # reads whose ANSWER the model predicts
+_RES_NS = "{http://www.w3.org/2005/sparql-results#}"
+_XML_LANG = "{http://www.w3.org/XML/1998/namespace}lang"
+
+
+def canon_j(v):
+    """canonical form of a JSON value (mirrors `canonJ` of lean/RV/C20/Drive.lean)"""
+    if v is None:
+        return "N"
+    if v is True:
+        return "T"
+    if v is False:
+        return "F"
+    if isinstance(v, str):
+        return "s" + _cps(v)
+    if isinstance(v, list):
+        return "[" + ",".join(canon_j(x) for x in v) + "]"
+    if isinstance(v, dict):
+        return "{" + ",".join(sorted(k + ":" + canon_j(x) for k, x in v.items())) + "}"
+    return "#"
+
+
+def canon_jdoc(d):
+    """the same with the `results.bindings` array sorted (`canonJDoc`)"""
+    if not isinstance(d, dict):
+        return canon_j(d)
+    out = []
+    for k, v in d.items():
+        if k == "results" and isinstance(v, dict):
+            inner = []
+            for k2, v2 in v.items():
+                if k2 == "bindings" and isinstance(v2, list):
+                    inner.append(k2 + ":[" + ",".join(sorted(canon_j(x) for x in v2)) + "]")
+                else:
+                    inner.append(k2 + ":" + canon_j(v2))
+            out.append(k + ":{" + ",".join(sorted(inner)) + "}")
+        else:
+            out.append(k + ":" + canon_j(v))
+    return "{" + ",".join(sorted(out)) + "}"
+
+
+def canon_x(e):
+    """canonical form of an element tree (`canonX`): local names, attributes sorted, children of `results` sorted"""
+    tag = e.tag[len(_RES_NS):] if e.tag.startswith(_RES_NS) else e.tag
+    attrs = sorted(("xml:lang" if k == _XML_LANG else k) + "=" + _cps(v) for k, v in e.attrib.items())
+    kids = [canon_x(c) for c in e]
+    if tag == "results":
+        kids.sort()
+    return "<" + tag + " " + ",".join(attrs) + " " + _cps(e.text or "") + " [" + "".join(kids) + "]>"
+
+
+def _rterm(t):
+    if t is None:
+        return "-"
+    if isinstance(t, BNode):
+        return "B" + _cps(str(t))
+    if isinstance(t, Literal):
+        if t.language is not None:
+            return "L" + _cps(str(t)) + "@" + _cps(t.language)
+        if t.datatype is not None:
+            return "T" + _cps(str(t)) + "^" + _cps(str(t.datatype))
+        return "P" + _cps(str(t))
+    return "I" + _cps(str(t))
+
+
+def canon_res(res):
+    """what rdflib's result parser made of a document (`showResult`): rows aligned to the variables, sorted"""
+    if res.type == "ASK":
+        return "A true" if res.askAnswer else "A false"
+    rows = sorted(" ".join(_rterm(c) for c in row) for row in res)
+    return "S " + ",".join(str(v) for v in res.vars) + " | " + " ; ".join(rows)
+
+
+def response_obs(fmt, body):
+    """`<document as sent, canonical> => <as parsed by rdflib's result parser, canonical>`"""
+    import json
+    from io import BytesIO
+    from xml.etree import ElementTree
+    from rdflib.query import Result
+    try:
+        if fmt == "json":
+            doc = "J " + canon_jdoc(json.loads(body.decode("utf-8")))
+            res = Result.parse(BytesIO(body), content_type="application/sparql-results+json")
+        else:
+            doc = "X " + canon_x(ElementTree.fromstring(body))
+            res = Result.parse(BytesIO(body), content_type="application/sparql-results+xml")
+        return doc + " => " + canon_res(res)
+    except Exception as e:  # noqa: BLE001
+        return f"unparsable({type(e).__name__})"
 
 
 AUTH_VALUE = "Basic dXNlcjpwOncgZA=="     # base64("user:p:w d")
@@ -555,7 +649,7 @@ def _model_blocks(case, out):
     """per op: (result, endpoint obs, predicted requests, predicted request texts)"""
     n0 = len(VOCAB_LINES or vocab_lines()) + 2 + len(case["init"]) + len(case.get("ginit", []))
     body = out[n0:]
-    return [tuple(body[i:i + 5]) for i in range(0, len(body) - 4, 5)]
+    return [tuple(body[i:i + 6]) for i in range(0, len(body) - 5, 6)]
 
 
 def _merge_blocks(case, blocks):
@@ -570,8 +664,9 @@ def _merge_blocks(case, blocks):
         sent = [b[2] for b in part if b[2] != "-"]
         txt = [b[3] for b in part if b[3] != "none"]
         http = [b[4] for b in part if b[4] != "-"]
+        ans = [b[5] for b in part if b[5] != "-"]
         res.append((part[-1][0], part[-1][1], " | ".join(sent) if sent else "-", " ".join(txt) if txt else "none",
-                    " | ".join(http) if http else "-"))
+                    " | ".join(http) if http else "-", " | ".join(ans) if ans else "-"))
     return res
 
 
@@ -590,7 +685,7 @@ def _blank_op(case, op):
 
 def select_model_obs(case, out):
     res = []
-    for op, (o, e, sent, _txt, http) in zip(case["ops"], _merge_blocks(case, _model_blocks(case, out))):
+    for op, (o, e, sent, _txt, http, ans) in zip(case["ops"], _merge_blocks(case, _model_blocks(case, out))):
         b = _blank_op(case, op)
         if b and sent != "-":
             sent = " | ".join(("Q?" if r.startswith("Q") else r) if b == "q" else ("U?" if r.startswith("U") else r)
@@ -599,7 +694,7 @@ def select_model_obs(case, out):
             pos = PROJ_POS[op[1]]
             rows = {tuple(int(t.split(",")[j]) for j in pos) for t in o[2:].split(" ") if t}
             o = "P " + " ".join(",".join(map(str, x)) for x in sorted(rows))
-        res.append(f"{o} ; {e} ; SENT {sent} ; HTTP {http}")
+        res.append(f"{o} ; {e} ; SENT {sent} ; HTTP {http} ; RES {ans if op[0] in RES_OPS else '~'}")
     return res
 
 
@@ -852,7 +947,7 @@ def run_impl(case):
              "axis_auth": int(bool(case.get("auth"))), "axis_sparql10": int(not case.get("sparql11", True)),
              "axis_not_context_aware": int(not ca), "axis_normalize_literals_off": int(not case.get("norm", True))}
     reached, answered = cfg == "ro", False
-    captured, captured_meta, http_obs = [], [], []
+    captured, captured_meta, http_obs, res_obs = [], [], [], []
 
     def bump(k, n=1):
         stats[k] = stats.get(k, 0) + n
@@ -1123,6 +1218,13 @@ def run_impl(case):
             ps = "&".join(sorted(f"{_cps(k_)}={_cps(v_)}" for k_, v_ in ent.get("params", [])
                                  if k_ != ent.get("text_key")))
             https.append(f"{'U' if kind == 'u' else 'Q'} {ent.get('via')} {ent['url_path']} a:{acc} p:{ps}")
+        # the result layer: every results document the endpoint sent for this read, and what rdflib's parser makes of it
+        if k in RES_OPS:
+            docs = [response_obs(ent.get("format"), ent["res_body"]) for ent in ep.log[n_log:] if "res_body" in ent]
+            res_obs.append(" | ".join(docs) if docs else "-")
+            bump("result_documents_compared", len(docs))
+        else:
+            res_obs.append("~")
         captured.append(reqs)
         captured_meta.append(metas)
         http_obs.append(" | ".join(https) if https else "-")
@@ -1299,7 +1401,7 @@ def run_impl(case):
         bump("named_graph_rewrites_found_verbatim_in_a_sent_request", ING_STATS[0][1])
     for k_i, op in enumerate(case["ops"]):
         if sess is None:
-            obs[k_i] += " ; SENT no-driver ; HTTP " + http_obs[k_i]
+            obs[k_i] += " ; SENT no-driver ; HTTP " + http_obs[k_i] + " ; RES " + res_obs[k_i]
             continue
         dec, mtxt = sess[k_i]
         reqs = captured[k_i]
@@ -1316,7 +1418,7 @@ def run_impl(case):
                     bump("texts_compared_with_lean_writer")
                     bump("texts_identical_to_lean_writer", int(m == _cps(text)))
         bump("requests_decoded", len(reqs))
-        obs[k_i] += f" ; SENT {sent} ; HTTP {http_obs[k_i]}"
+        obs[k_i] += f" ; SENT {sent} ; HTTP {http_obs[k_i]} ; RES {res_obs[k_i]}"
 
     _rdflib.NORMALIZE_LITERALS = norm_before
     return {"obs": obs, "viol": viol, "nontrivial": bool(reached and answered),
